@@ -26,17 +26,17 @@ PROP = {
         "elements()/uninitialized_copy_n visit the source in canonical order (that is C02/C03); the model of array(view) takes that order as given",
     ],
     "assumptions": [
-        "source views are ZERO-BASED (every level offset 0): layout_t::scale asserts offset_ == 0 (layout.hpp:987); stated as hypothesis ZeroOff, proved invariant under the whole view algebra (zeroOff_op)",
-        "(stride*sizeof(T)) % sizeof(T2) == 0 at every level (the other assertion of scale); automatic when sizeof(T2) divides sizeof(T)",
+        "source views are well formed (C01) with ANY index bases (layout_t::scale scales the offset since the fix commit); address statements are for index tuples inside the view's box",
+        "(stride*sizeof(T)) % sizeof(T2) == 0 at every level (assertion of scale; automatic when sizeof(T2) divides sizeof(T)); the offset assertion is then a consequence on well-formed views without empty level (scaleDivOff_of_wf)",
         "index arithmetic does not overflow ptrdiff_t; raw pointers",
         "as_const / const_array_cast exist only for D > 1 at this commit (the D = 1 specialisation has static_array_cast only)",
     ],
-    "rule": ("programs = element kind (struct of 4 doubles | complex<double> | int) + root extents (D 1..4, sizes 0..6, <= 200 elements) + 0..5 in-domain view "
+    "rule": ("programs = element kind (struct of 4 doubles | complex<double> | int) + root extents (D 1..4, sizes 0..6, <= 200 elements, index bases -3..3 in half of the programs) + 0..5 in-domain view "
              "operations drawn from the real view's current shape + 1..5 projection queries (member_cast to each member, reinterpret_array_cast<U>() and <U>(n), "
              "static/const casts, blas::real/imag, element_transformed with value and reference functors incl. access-time and write-through probes, array construction "
              "from each); distinct = different program text; non-trivial = some projection answer with >= 2 elements"),
-    "level_text": "Theorems (all D, all zero-based well-formed views, all element sizes with the code's divisibility assertion, all index tuples, all memory states): member_cast designates the byte at offsetof(member) inside each source element; reinterpret_array_cast<U>() keeps every element's first byte and reinterpret_array_cast<U>(n) appends a dimension [0,n) whose j-th element is at +j*sizeof(U), tiling the source element; static/const casts are the identity on layout and pointer; element_transformed(f)[idx] = f(source[idx]) for every memory state (hence at access time) and a reference functor writes exactly the designated object; every same-rank cast commutes with every operation of the view algebra (via C01.op_refines) and the rank-raising cast composes on both sides; array(view) has the view's extents and data[rowMajor idx] = conv(view[idx]). The model is tied to /repo by a differential run over generated views (byte offsets and values of every projected element).",
-    "level_note": "Trusted: Lean kernel (+propext, Classical.choice, Quot.sound), the hand transcription MultiModel/Cast.lean validated by the correspondence run only, byte-address semantics of pointers, Int for ptrdiff_t, canonical order of elements() (C02). Views must be zero-based because layout_t::scale asserts it. The conversion of element values (conv) is abstract in the theorem and exercised with int->double, complex<double>->complex<long double> in the run.",
+    "level_text": "Theorems (all D, all well-formed views with arbitrary index bases, all element sizes with the code's divisibility assertion, all index tuples, all memory states): member_cast designates the byte at offsetof(member) inside each source element; reinterpret_array_cast<U>() keeps every element's first byte and reinterpret_array_cast<U>(n) appends a dimension [0,n) whose j-th element is at +j*sizeof(U), tiling the source element; static/const casts are the identity on layout and pointer; element_transformed(f)[idx] = f(source[idx]) for every memory state (hence at access time) and a reference functor writes exactly the designated object; every same-rank cast commutes with every operation of the view algebra (via C01.op_refines) and the rank-raising cast composes on both sides; array(view) has the view's extents and data[rowMajor idx] = conv(view[idx]). The model is tied to /repo by a differential run over generated views (byte offsets and values of every projected element).",
+    "level_note": "Trusted: Lean kernel (+propext, Classical.choice, Quot.sound), the hand transcription MultiModel/Cast.lean validated by the correspondence run only, byte-address semantics of pointers, Int for ptrdiff_t, canonical order of elements() (C02). Index bases are arbitrary (the model follows the fixed layout_t::scale, which scales the offset). The conversion of element values (conv) is abstract in the theorem and exercised with int->double, complex<double>->complex<long double> in the run.",
 }
 
 
